@@ -1227,10 +1227,23 @@ NLA_NATIVES = {
             d.extend_from_slice(&[0, 0, 0, 0]);
             more.push(d);
         }
+        // large target infos (timestamp, one long AV pair, EOL): total 1000, 32768, 65491, 65492, 65500, 65534, 65535 bytes
+        for total in [1000usize, 32768, 65491, 65492, 65500, 65534, 65535].iter() {
+            let mut d = base.clone();
+            d.extend_from_slice(&[*total as u8, (*total >> 8) as u8, *total as u8, (*total >> 8) as u8, 48, 0, 0, 0]);
+            d.extend_from_slice(&[7, 0, 8, 0, 1, 2, 3, 4, 5, 6, 7, 8]);
+            let n = total - 20;
+            d.extend_from_slice(&[2, 0, n as u8, (n >> 8) as u8]);
+            for i in 0..n { d.push(if i % 2 == 0 { 0x41 } else { 0 }); }
+            d.extend_from_slice(&[0, 0, 0, 0]);
+            more.push(d);
+        }
         for m in [a, b, c].iter().chain(more.iter()) {
-            let mut n = Ntlm::new("".to_string(), "".to_string(), "".to_string());
-            n.create_negotiate_message().unwrap();
-            let _ = n.read_challenge_message(m);
+            for creds in [("", "", ""), ("domain", "user", "password"), ("d\\u{1F600}", "\\u{e9}", "p")].iter() {
+                let mut n = Ntlm::new(creds.0.to_string(), creds.1.to_string(), creds.2.to_string());
+                n.create_negotiate_message().unwrap();
+                let _ = n.read_challenge_message(m);
+            }
         }"""),
     r"^get_payload_field$": _native("verif_replay_ntlm_payload", "src/nla/ntlm.rs", """
         let mut m = challenge_message();
@@ -1308,6 +1321,44 @@ NLA_TARGETS = [
     (r"^read_target_info$", []),
     (r"ntlm::<impl at src/nla/ntlm\.rs[^>]*>::gss_unwrapex$", [
         (r"<Vec<u8> as Index<std::ops::Range<usize>>>::index$", 1, "computed_checksum[0..8] slices the 16-byte HMAC-MD5 output")]),
+]
+
+
+def panic_sites_in_files(files, allow, default_native=None):
+    """The same audit for every (non-test) function defined in the given source files, with one allow-list keyed by (function regex, callee regex):
+    a helper added to these files is audited without having to be named here."""
+    def fn(ctx, mir, stats):
+        targets = []
+        for rel in files:
+            text = open(os.path.join(ctx["src"], rel)).read().split("#[cfg(test)]")[0]
+            names = set(re.findall(r"\bfn (\w+)", text))
+            for f in mir:
+                owner = re.sub(r"(::\{closure#\d+\})+$", "", f.name)
+                base = owner.split("::")[-1]
+                if base not in names:
+                    continue
+                if "<impl at" in owner and rel not in owner:
+                    continue
+                if "<impl at" not in owner and not re.search(r"\bfn %s\b" % re.escape(base), text):
+                    continue
+                al = [(crx, mx, just) for frx, crx, mx, just in allow if re.search(frx, f.name)]
+                targets.append(("^" + re.escape(f.name) + "$", al))
+        if not targets:
+            raise Inconclusive("ENCODING-FAILED: no function of %s found in the MIR" % (files,))
+        nat = {".": default_native} if default_native else {}
+        return panic_sites(targets, nat)(ctx, mir, stats)
+    return fn
+
+
+NLA_FILE_ALLOW = [
+    (r"read_challenge_message$", r"Option::<&Vec<u8>>::unwrap$", 3, "exported_session_key / negotiate_message are set by this very call sequence (create_negotiate_message precedes; key assigned a few lines above)"),
+    (r"build_security_interface$", r"Option::<&Vec<u8>>::unwrap$", 4, "cssp_connect calls it only after read_challenge_message returned Ok, which sets the session key it unwraps"),
+    (r"gss_unwrapex$", r"<Vec<u8> as Index<std::ops::Range<usize>>>::index$", 1, "computed_checksum[0..8] slices the 16-byte HMAC-MD5 output"),
+    (r"^mac$", r"<Vec<u8> as Index<std::ops::Range<usize>>>::index$", 1, "[0..8] of the 16-byte HMAC-MD5 output"),
+    (r"^message_signature_ex$", r"<\[u8\] as Index<std::ops::Range<usize>>>::index$", 1, "[0..8] of the checksum: callers pass the 16-byte HMAC output (mac) or None (8 zero bytes)"),
+    (r"^unicode$", r"Result::<\(\), model::error::Error>::unwrap$", 1, "U16::write into a Cursor<Vec<u8>> cannot fail"),
+    (r"^hmac_md5$", r"Result::<Hmac<md5::Md5>, InvalidKeyLength>::unwrap$", 1, "HMAC accepts keys of every length"),
+    (r"^create_ts_credentials::\{closure#0\}$", r"Result::<\(\), model::error::Error>::unwrap$", 1, "write_asn1 of a Sequence of octet strings into a DER writer always returns Ok (the wrappers return Ok(()) unconditionally); its content is the client's own credentials, not server data"),
 ]
 
 
@@ -2428,6 +2479,20 @@ def _promoted_consts(text, fn_short):
     return out
 
 
+CONTROL_NATIVE = _native("verif_replay_control_actions", "src/core/global.rs", """
+        // a control PDU carrying each action against each expected action: accepted exactly when they are equal
+        let pdu = |action: u16| vec![26u8, 0, 23, 0, 234, 3, 234, 3, 1, 0, 0, 2, 26, 0, 20, 0, 0, 0, action as u8, (action >> 8) as u8, 0, 0, 0, 0, 0, 0];
+        for sent in 0u16..8 {
+            for (expected, code) in [(Action::CtrlactionRequestControl, 1u16), (Action::CtrlactionGrantedControl, 2), (Action::CtrlactionDetach, 3), (Action::CtrlactionCooperate, 4)].iter() {
+                let mut global = Client::new(0, 0, 800, 600, KeyboardLayout::US, "foo");
+                let expected: Action = match *code { 1 => Action::CtrlactionRequestControl, 2 => Action::CtrlactionGrantedControl, 3 => Action::CtrlactionDetach, _ => Action::CtrlactionCooperate };
+                let r = global.read_control_pdu(&mut Cursor::new(pdu(sent)), expected);
+                if sent == *code { assert!(r.unwrap(), "control PDU with action {} refused while {} was expected", sent, code); }
+                else { assert!(r.is_err(), "control PDU with action {} accepted while action {} was expected", sent, code); }
+            }
+        }""")
+
+
 RECOGNISERS = {
     "read_demand_active_pdu": [("PDUType", "PDUType::PdutypeDemandactivepdu")],
     "read_synchronize_pdu": [("PDUType", "PDUType::PdutypeDatapdu"), ("PDUType2", "PDUType2::Pdutype2Synchronize")],
@@ -2463,16 +2528,27 @@ def recognisers(ctx, mir, stats):
             got_all = [c for c, ok in matched if ok]
             if val and name == "read_control_pdu":
                 # the action field must equal the expected action on the accepting path
-                cmpv = [e for e in p.events if e[0] == "assign" and re.match(r"(Ne|Eq)\((?:copy|move) _\d+, (?:copy|move) _\d+\)$", e[3]) and e[4] is not None]
+                # E = the `action` argument as u16; R = the value it is first compared with (the action field of the PDU)
+                dd = [e for e in p.events if e[0] == "assign" and re.match(r"discriminant\(_3\)$", e[3].strip())]
+                E, R = None, None
+                if dd:
+                    dloc = dd[0][2].strip()
+                    casts = [e for e in p.events if e[0] == "assign" and re.match(r"(?:move|copy) %s as u16 \(IntToInt\)$" % re.escape(dloc), e[3].strip()) and e[4] is not None]
+                    eloc, E = (casts[0][2].strip(), casts[0][4]) if casts else (dloc, dd[0][4] if dd[0][4] is not None else p.env.get(dloc))
+                    if E is not None:
+                        for e in p.events:
+                            if e[0] == "assign" and re.match(r"(Ne|Eq)\(", e[3]) and re.search(r"\b%s\b" % re.escape(eloc), e[3]):
+                                ops = re.findall(r"(?:copy|move) (_\d+)", e[3])
+                                other = [o for o in ops if o != eloc]
+                                if other and p.env.get(other[0]) is not None:
+                                    R = p.env.get(other[0])
+                                break
                 act_ok = False
-                if cmpv:
-                    a, b = re.findall(r"(?:copy|move) (_\d+)", cmpv[-1][3])
-                    va, vb = p.env.get(a), p.env.get(b)
-                    if va is not None and vb is not None and va.size() == vb.size():
-                        vd, md, sm = se.check(p, [va != vb], "control action")
-                        act_ok = vd == "unsat"
+                if E is not None and R is not None and E.size() == R.size():
+                    vd, md, sm = se.check(p, [R != E], "control action")
+                    act_ok = vd == "unsat"
                 obs.append({"id": "read_control_pdu:action-must-match", "ok": act_ok, "functions": [f.name],
-                            "detail": "a control PDU is accepted only when its action field equals the action the state expects" if act_ok else "the action field is not compared with the expected action on the accepting path", "where": f.name})
+                            "detail": "a control PDU is accepted only when its action field equals the action the state expects" if act_ok else "the action field is not compared with the expected action on the accepting path", "where": f.name, "needs_native": False, "native": None if act_ok else CONTROL_NATIVE})
             if val:
                 n_true += 1
                 ok = got_all == want
@@ -4053,4 +4129,83 @@ def mcs_send_data_request(ctx, mir, stats):
     ob("payload", okm, "element 5 is the message itself", "element 5 is %s" % vals[5][:80])
     ret = [e for e in p.events if e[0] == "call" and e[5] == "_0"]
     ob("result", bool(ret) and re.search(r"x224::Client::<S>::write::<", ret[-1][2]) is not None, "the result of x224::Client::write is returned", "the result of the lower layer is not what mcs::Client::write returns")
+    return obs
+
+
+
+# --------------------------------------------------------------------------
+# C14: Link::write keeps no state between messages
+# --------------------------------------------------------------------------
+LINK_SEQ_NATIVE = _native("verif_replay_link_consecutive_writes", "src/model/link.rs", """
+        use std::sync::{Arc, Mutex};
+        struct Rec { out: Arc<Mutex<Vec<u8>>> }
+        impl Read for Rec { fn read(&mut self, _b: &mut [u8]) -> std::io::Result<usize> { Ok(0) } }
+        impl Write for Rec { fn write(&mut self, b: &[u8]) -> std::io::Result<usize> { self.out.lock().unwrap().extend_from_slice(b); Ok(b.len()) } fn flush(&mut self) -> std::io::Result<()> { Ok(()) } }
+        let out = Arc::new(Mutex::new(vec![]));
+        let mut link = Link::new(Stream::Raw(Rec { out: out.clone() }));
+        let mut expected: Vec<u8> = vec![];
+        for (i, n) in [3usize, 20, 5, 0, 20, 1, 300, 2].iter().enumerate() {
+            let msg: Vec<u8> = (0..*n).map(|k| (k as u8).wrapping_mul(3).wrapping_add(i as u8 * 17)).collect();
+            link.write(&msg).unwrap();
+            expected.extend_from_slice(&msg);
+            assert_eq!(*out.lock().unwrap(), expected, "after message {} of {} bytes the stream does not hold exactly the messages written so far", i, n);
+        }""")
+
+
+def link_write_stateless(ctx, mir, stats):
+    cands = [g for g in find_fn(mir, r"^link::<impl at src/model/link\.rs[^>]*>::write$", unique=False) if "Message" in g.locals.get("_2", "")]
+    if len(cands) != 1:
+        raise Inconclusive("ENCODING-FAILED: Link::write(&dyn Message) not found (%d candidates)" % len(cands))
+    f = cands[0]
+    se = SymExec(f, stats, loop_bound=0, max_paths=2000).run()
+    paths = [p for p in se.finished if calls_on(p.events, r"link::Stream::<S>::write$|Stream::<S>::write$")]
+    if not paths:
+        raise Inconclusive("ENCODING-FAILED: Link::write does not reach Stream::write")
+    p = paths[0]
+    i, ev = calls_on(p.events, r"Stream::<S>::write$")[0]
+    src = resolve_source(p.events, i, ev[4][1], depth=12)
+    fresh = re.search(r"Cursor::<Vec<u8>>::into_inner\(.*Cursor::<Vec<u8>>::new\(CALL Vec::<u8>::new\(\)\)", src) is not None
+    writes = calls_on(p.events, r" as Message>::write$")
+    one = len(writes) == 1 and re.search(r"_2\b", resolve_source(p.events, writes[0][0], writes[0][1][4][0], depth=4)) is not None
+    fields = sorted({m for b in f.order if not f.blocks[b].cleanup for s_ in f.blocks[b].stmts + [f.blocks[b].t["text"] if f.blocks[b].t else ""] for m in re.findall(r"\(\*_1\)\.(\d+)", s_)})
+    only_stream = fields == ["0"]
+    ok = fresh and one and only_stream
+    return [{"id": "link-write:stateless", "ok": ok, "functions": [f.name], "where": f.name, "needs_native": True, "native": None if ok else LINK_SEQ_NATIVE,
+             "detail": "the bytes sent are those of a buffer created in this call and filled by one Message::write of the argument; only the stream field of the link is touched" if ok else
+             "Link::write is not stateless: buffer created here: %s, exactly one Message::write of the argument: %s, fields of the link used: %s (source of the sent buffer: %s)" % (fresh, one, fields, src[:160])}]
+
+
+
+# --------------------------------------------------------------------------
+# C02: tpkt::Client::start_ssl / start_nla hand the certificate policy down unchanged
+# --------------------------------------------------------------------------
+TPKT_CERT_NATIVE = {"test": "verif_replay_tpkt_certificate", "files": {"src/core/tpkt.rs": open(os.path.join(os.path.dirname(os.path.abspath(__file__)), "natives", "tpkt_certificate.rs")).read()}}
+
+
+def tpkt_security_wiring(ctx, mir, stats):
+    """E3: in both functions the bool given to Link::start_ssl is the check_certificate parameter itself (no operation on it, whatever the other
+    arguments are); start_nla runs cssp_connect only after start_ssl returned Ok, with its own authentication protocol and restricted-admin flag."""
+    obs = []
+    for name, nparams in (("start_ssl", 2), ("start_nla", 4)):
+        f = find_fn(mir, r"^tpkt::<impl at src/core/tpkt\.rs[^>]*>::%s$" % name)
+        se = SymExec(f, stats, loop_bound=0, max_paths=2000).run()
+        ok, why = True, ""
+        n = 0
+        for p in se.finished + [a[0] for a in se.asserts]:
+            for i, ev in calls_on(p.events, r"Link::<S>::start_ssl$"):
+                n += 1
+                arg = ev[4][1].strip()
+                srcv = resolve_source(p.events, i, arg, depth=6)
+                if not re.match(r"^\??_2$", srcv.strip()) and re.sub(r"^(copy|move) ", "", arg) != "_2":
+                    ok, why = False, "Link::start_ssl is given `%s` instead of the check_certificate parameter" % srcv[:80]
+            for i, ev in calls_on(p.events, r"cssp_connect::<"):
+                a2 = re.sub(r"^(copy|move) ", "", ev[4][2].strip())
+                s2 = resolve_source(p.events, i, ev[4][2], depth=6)
+                if a2 != "_4" and not re.match(r"^\??_4$", s2.strip()):
+                    ok, why = False, "cssp_connect is given `%s` instead of the restricted_admin_mode parameter" % s2[:80]
+        calls = call_blocks(f, r"Link::<S>::start_ssl$")
+        if len(calls) != 1 or n == 0:
+            ok, why = False, "expected exactly one call of Link::start_ssl (found %d)" % len(calls)
+        obs.append({"id": "tpkt:%s:certificate-policy-unchanged" % name, "ok": ok, "functions": [f.name], "where": f.name, "needs_native": True, "native": None if ok else TPKT_CERT_NATIVE,
+                    "detail": "tpkt::Client::%s passes check_certificate to Link::start_ssl unchanged on every path" % name if ok else "tpkt::Client::%s: %s" % (name, why)})
     return obs
